@@ -12,11 +12,14 @@
 //! A proof is a pre-order serialisation of a partially truncated, *uncollapsed* trie.
 //!
 //! What is enumerated (every member is run through the real code of /repo):
-//!  (1) roots: every subset of a 12-leaf universe, all orderings / duplications of the small ones;
-//!  (2) completeness: every subset x every query item: generate_proof + validate_merkle_proof;
-//!  (3a) soundness, adversary A: every proof tree with <= N MIDDLE nodes over a per-set leaf alphabet;
-//!  (3b) soundness, adversary B: every single-step rewrite of every honest proof;
-//!  (3c) depth / truncation / trailing-bytes probes on 250..258 level chains.
+//!  (1) roots: every subset of a 12-leaf universe U, all orderings / duplications of the small ones;
+//!  (2) completeness: every subset x every query item x 2 construction orders: generate_proof +
+//!      validate_merkle_proof (also over the medium-depth universe W);
+//!  (3a) soundness, adversary A: every proof tree with <= N MIDDLE nodes over a per-set leaf alphabet
+//!       (shallow 5-leaf universe, where trees that small can hash to the honest root);
+//!  (3b) soundness, adversary B: every single-step rewrite of honest proofs (over U and W), every
+//!       token-boundary prefix, a fixed list of trailing-byte extensions; thorough: rewrites of rewrites over W;
+//!  (3c) soundness, adversary C: 250..258 level chains around the depth limit with every small terminator tree.
 //! Oracle for (3): validate_merkle_proof(p, item, root(S)) is never Ok(b) with b != (item in S).
 
 use chia_consensus::merkle_set::compute_merkle_set_root;
